@@ -3599,7 +3599,7 @@ func (lc *LightningChannel) createCommitDiff(newCommit *commitment,
 		// messages obtained, we can simply read from disk and re-send
 		// them in the case of a needed channel sync.
 		switch pd.EntryType {
-		case Add:
+		case Add, NoOpAdd:
 			// Gather any references for circuits opened by this Add
 			// HTLC.
 			if pd.OpenCircuitKey != nil {
